@@ -243,3 +243,253 @@ def run(ctx) -> None:
               "dose = total_dose or dose_per_area x area per pixel",
               "the dose handed to NoiseTransform does not derive from total_dose / dose_per_area x area per pixel",
               key_detail="dose")
+
+
+# ---- added after the mutation sweep: the rate is the PRODUCT signal x dose on every arm, term-exact
+_inner_run_c31 = run
+
+_SHAPE_ONLY = {"expand_dims", "tile", "broadcast_to", "reshape", "squeeze", "atleast_1d", "ravel"}
+
+
+def _shape_only_index(s: ast.Subscript) -> bool:
+    idx = s.slice.elts if isinstance(s.slice, ast.Tuple) else [s.slice]
+    for i in idx:
+        if isinstance(i, ast.Constant) and (i.value is None or i.value is Ellipsis):
+            continue
+        if isinstance(i, ast.Slice) and i.lower is None and i.upper is None and i.step is None:
+            continue
+        return False
+    return True
+
+
+def _product_norm(df, at):
+    """FlowNormalizer that sees through shape-only operations (x[None], expand_dims, tile, broadcast_to, reshape)
+    and through `.values` of a distribution: what remains is the arithmetic on the elements."""
+    from ..model import last_attr
+    from ..terms import FlowNormalizer, is_array_module
+
+    class _N(FlowNormalizer):
+        def norm(self, n):
+            if isinstance(n, ast.Subscript) and _shape_only_index(n):
+                return self.norm(n.value)
+            if isinstance(n, ast.Call) and last_attr(n) in _SHAPE_ONLY:
+                recv = n.func.value if isinstance(n.func, ast.Attribute) else None
+                if recv is not None and not (isinstance(recv, ast.Name) and (
+                        is_array_module(recv.id) or self._is_module_local(recv.id))):
+                    return self.norm(recv)  # x.reshape(...), x.squeeze()
+                if n.args and not isinstance(n.args[0], ast.Starred):
+                    return self.norm(n.args[0])
+            if isinstance(n, ast.Attribute) and n.attr == "values" and dotted(n.value) is not None:
+                return self.norm(n.value)
+            return super().norm(n)
+
+    return _N(df, at)
+
+
+def _two_factor_product(poly, is_a, is_b):
+    """None when poly is exactly 1 * a * b with one atom of each kind, both with exponent +1; else a description."""
+    if len(poly.terms) != 1:
+        return f"`{poly.key()[:80]}` is not a single product"
+    (mono, coef), = poly.terms.items()
+    if coef != 1:
+        return f"the product carries the constant factor {coef}"
+    a = [(x, e) for x, e in mono if is_a(x)]
+    b = [(x, e) for x, e in mono if is_b(x) and not is_a(x)]
+    rest = [(x, e) for x, e in mono if not is_a(x) and not is_b(x)]
+    if rest:
+        return f"the product contains the foreign factor(s) {[x for x, _ in rest][:2]}"
+    if len(a) != 1 or len(b) != 1:
+        return f"`{poly.key()[:80]}` is not (signal) x (dose)"
+    bad = [(x, e) for x, e in a + b if e != 1]
+    if bad:
+        return f"`{bad[0][0]}` enters with exponent {bad[0][1]} instead of +1"
+    return None
+
+
+def run(ctx) -> None:  # noqa: F811
+    ctx.rule("R-DOSEAXIS", "in the dose-distribution arm the signal receives one new leading axis (x[None]) and the "
+             "vector of doses is expanded by exactly rank(signal) trailing axes starting at axis 1 (term equality of "
+             "range bounds with len(signal.shape)): the product then holds one scaled copy of the signal per dose; any "
+             "other count misaligns doses and signal axes")
+    ctx.rule("R-RATEPRODUCT", "term-exact form of `expectation = dose x signal`: on every arm of the dose switch of "
+             "NoiseTransform._calculate_new_array the value assigned to the variable that becomes the Poisson rate is, "
+             "modulo shape-only operations (x[None], expand_dims, tile, casts) and ring axioms, exactly the product of "
+             "one factor derived from the block (the signal) and one factor derived from self.dose, each with exponent "
+             "+1 and with no other factor; and BaseMeasurements.poisson_noise computes the dose from dose_per_area as "
+             "exactly area-per-pixel x dose_per_area.  A quotient signal / dose or area / dose_per_area still depends "
+             "on both quantities (the dependence rules pass) but its expectation is not dose x signal")
+    # an AnalysisError of this rule must not pre-empt a violation of the rules below (R-ONESTREAM looks into nested
+    # helpers this rule cannot read): it is raised after they have run
+    pending = None
+    try:
+        _rate_product(ctx)
+    except AnalysisError as e:
+        pending = e
+    _inner_run_c31(ctx)
+    if pending is not None:
+        raise pending
+
+
+def _dose_axes(ctx, f, df, st, at, is_dose) -> None:
+    """R-DOSEAXIS on the statement that multiplies the signal by the vector of doses."""
+    from ..model import last_attr
+    from ..terms import FlowNormalizer, Poly
+
+    if not isinstance(st, ast.Assign) or not isinstance(st.value, ast.BinOp) or not isinstance(st.value.op, ast.Mult):
+        ctx.info("R-DOSEAXIS", f"{f.qualname}:dose axes", f.loc(st), "the dose arm is not a plain product; not decided")
+        return
+    nz = FlowNormalizer(df, at)
+
+    def peel(e, node):
+        for _ in range(6):
+            if isinstance(e, ast.Name):
+                d = df.single_def(node, e.id)
+                if d is None or d.kind != "assign" or d.value is None or isinstance(
+                        df.cfg.nodes[d.node].ast.targets[0], (ast.Tuple, ast.List)):
+                    return e, node
+                e, node = d.value, d.node
+                continue
+            return e, node
+        return e, node
+
+    sides = [peel(st.value.left, at), peel(st.value.right, at)]
+    dose_side = [x for x in sides if any(is_dose(v) for v in df.backward_slice(x[1], x[0]).external | df.backward_slice(x[1], x[0]).visited)]
+    sig_side = [x for x in sides if x not in dose_side]
+    if len(dose_side) != 1 or len(sig_side) != 1:
+        ctx.info("R-DOSEAXIS", f"{f.qualname}:dose axes", f.loc(st), "cannot tell the dose factor from the signal; not decided")
+        return
+    (de, dn), (se, sn) = dose_side[0], sig_side[0]
+    # leading axes added to the signal: x[None] / x[None, ...] / x[np.newaxis]
+    lead = 0
+    base = se
+    if isinstance(se, ast.Subscript):
+        idx = se.slice.elts if isinstance(se.slice, ast.Tuple) else [se.slice]
+        for i in idx:
+            if isinstance(i, ast.Constant) and i.value is None:
+                lead += 1
+            elif (isinstance(i, ast.Constant) and i.value is Ellipsis) or (
+                    isinstance(i, ast.Slice) and i.lower is None and i.upper is None and i.step is None):
+                break
+            else:
+                lead = -1
+                break
+        base = se.value
+    rank = FlowNormalizer(df, sn).norm(ast.parse(f"len({ast.unparse(base)}.shape)", mode="eval").body)
+    ndim_alt = FlowNormalizer(df, sn).norm(ast.parse(f"{ast.unparse(base)}.ndim", mode="eval").body)
+    added = first = None
+    if isinstance(de, ast.Call) and last_attr(de) == "expand_dims" and len(de.args) + len(de.keywords) >= 2:
+        ax = de.args[1] if len(de.args) > 1 else next((k.value for k in de.keywords if k.arg == "axis"), None)
+        if isinstance(ax, ast.Call) and call_name(ax) in ("tuple", "list") and len(ax.args) == 1:
+            ax = ax.args[0]
+        if isinstance(ax, ast.Call) and call_name(ax) == "range" and 1 <= len(ax.args) <= 2:
+            lo = nz.norm(ax.args[0]) if len(ax.args) == 2 else Poly.const(0)
+            hi = nz.norm(ax.args[-1])
+            added, first = hi - lo, lo
+    if added is None or lead < 0:
+        ctx.info("R-DOSEAXIS", f"{f.qualname}:dose axes", f.loc(st),
+                 "the dose vector is not expanded with expand_dims(dose, tuple(range(a, b))); not decided")
+        return
+    ok = (added == rank or added == ndim_alt) and first == Poly.const(lead) and lead >= 1
+    ctx.check(ok, "R-DOSEAXIS", f"{f.qualname}:dose axes", f.loc(st),
+              f"signal gets {lead} leading axis, the doses get {added.key()} trailing axes starting at {first.key()}",
+              f"the signal gets {lead} new leading ax(i/e)s and has rank {rank.key()}, but the dose vector is expanded by "
+              f"{added.key()} axes starting at axis {first.key()}: doses and signal are not aligned one-dose-per-copy "
+              "(broadcast error, or for a matching length the doses scale a signal axis)", key_detail="dose-axes")
+
+
+def _rate_product(ctx) -> None:
+    from ..terms import Poly
+
+    repo = ctx.repo
+    f = repo.method(NOISE, "NoiseTransform", "_calculate_new_array")
+    df = DataFlow(f.node)
+    block_param = f.positional_params[1]
+    draws = [c for c in walk_no_nested(f.node) if isinstance(c, ast.Call) and isinstance(c.func, ast.Attribute)
+             and c.func.attr == "poisson"]
+    ctx.require(len(draws) >= 1, "R-RATEPRODUCT: no poisson draw found")
+    lam = draws[0].args[0] if draws[0].args else next((k.value for k in draws[0].keywords if k.arg == "lam"), None)
+    ctx.require(lam is not None, "R-RATEPRODUCT: poisson draw without a rate")
+    rate_slice = df.backward_slice(df.cfg.node_of(_stmt_of(f.node, draws[0])).idx, lam)
+
+    def is_dose_switch(i):
+        if not (isinstance(i, ast.If) and i.orelse):
+            return False
+        return any(isinstance(c, ast.Call) and call_name(c) == "isinstance" and c.args and
+                   dotted(c.args[0]) in ("self.dose", "self._dose") for c in ast.walk(i.test))
+
+    switches = [i for i in walk_no_nested(f.node) if is_dose_switch(i)]
+    ctx.require(len(switches) >= 1, "R-RATEPRODUCT: dose switch (isinstance(self.dose, ...)) not found")
+
+    def is_dose(atom: str) -> bool:
+        return atom.startswith(("self.dose", "self._dose"))
+
+    for sw in switches:
+        neg = isinstance(sw.test, ast.UnaryOp) and isinstance(sw.test.op, ast.Not)
+        arms = (("scalar", sw.body), ("distribution", sw.orelse)) if neg else (("distribution", sw.body), ("scalar", sw.orelse))
+        for arm_name, arm in arms:
+            last = None
+            for st in arm:
+                if isinstance(st, (ast.If, ast.For, ast.While, ast.With, ast.Try)):
+                    raise AnalysisError(f"R-RATEPRODUCT: compound statement inside the {arm_name}-dose arm")
+                if isinstance(st, ast.Assign) and len(st.targets) == 1 and isinstance(st.targets[0], ast.Name) and \
+                        st.targets[0].id in rate_slice.visited:
+                    last = st
+                elif isinstance(st, ast.AugAssign) and isinstance(st.target, ast.Name) and st.target.id in rate_slice.visited:
+                    last = st
+            ctx.require(last is not None, f"R-RATEPRODUCT: the {arm_name}-dose arm assigns nothing that reaches the rate")
+            at = df.cfg.node_of(last).idx
+            nz = _product_norm(df, at)
+            if isinstance(last, ast.AugAssign):
+                cur = Poly.atom(last.target.id)
+                v = nz.norm(last.value)
+                if isinstance(last.op, ast.Mult):
+                    poly = cur * v
+                elif isinstance(last.op, ast.Div):
+                    poly = cur * v.inverse()
+                else:
+                    raise AnalysisError(f"R-RATEPRODUCT: augmented {type(last.op).__name__} in the {arm_name}-dose arm")
+            else:
+                poly = nz.norm(last.value)
+
+            def is_signal(atom: str, _at=at) -> bool:
+                if is_dose(atom):
+                    return False
+                try:
+                    e = ast.parse(atom, mode="eval").body
+                except SyntaxError:
+                    return False
+                sl = df.backward_slice(_at, e)
+                return block_param in sl.params and not any(
+                    v in ("self.dose", "self._dose") for v in sl.external | sl.visited)
+
+            if arm_name == "distribution":
+                _dose_axes(ctx, f, df, last, at, is_dose)
+            why = _two_factor_product(poly, is_signal, is_dose)
+            ctx.check(why is None, "R-RATEPRODUCT", f"{f.qualname}:rate {arm_name}", f.loc(last),
+                      f"rate = {poly.key()[:70]}: signal x dose, both to the first power",
+                      f"in the {arm_name}-dose arm the rate is not signal x dose: {why}; the expectation of the counts is "
+                      "not dose times signal", key_detail=f"product-{arm_name}")
+
+    pn = repo.method("abtem.measurements", "BaseMeasurements", "poisson_noise")
+    ps = set(pn.positional_params)
+    ctx.require({"dose_per_area", "total_dose"} <= ps, "poisson_noise: parameters dose_per_area / total_dose not found")
+    dfp = DataFlow(pn.node)
+    found = 0
+    for st in walk_no_nested(pn.node):
+        if not (isinstance(st, ast.Assign) and len(st.targets) == 1 and dotted(st.targets[0]) == "total_dose"):
+            continue
+        at = dfp.cfg.node_of(st).idx
+        sl = dfp.backward_slice(at, st.value)
+        if "dose_per_area" not in sl.params:
+            continue  # the cast of total_dose itself
+        poly = _product_norm(dfp, at).norm(st.value)
+        if not any(a == "dose_per_area" for m in poly.terms for a, _ in m):
+            continue  # a cast / copy of the total dose, not its derivation from the dose per area
+        found += 1
+        why = _two_factor_product(poly, lambda a: a.startswith("self._area_per_pixel") or a.startswith("self.area_per_pixel"),
+                                  lambda a: a == "dose_per_area")
+        ctx.check(why is None, "R-RATEPRODUCT", f"{pn.qualname}:dose from dose_per_area", pn.loc(st),
+                  f"total_dose = {poly.key()[:60]}",
+                  f"the dose per pixel derived from dose_per_area is not area-per-pixel x dose_per_area: {why}",
+                  key_detail="area-product")
+    ctx.require(found >= 1, "poisson_noise: no assignment deriving total_dose from dose_per_area")
